@@ -163,9 +163,10 @@ func (u *unionNullString) Omit(p unsafe.Pointer) bool {
 
 func (u *unionNullString) Write(w *WriteBuf, p unsafe.Pointer) {
 	if u.codec.Omit(p) {
-		w.Varint(0)
+		w.Varint(int64(1 - u.nonNull))
+		return
 	}
 
-	w.Varint(1)
+	w.Varint(int64(u.nonNull))
 	u.codec.Write(w, p)
 }
